@@ -64,6 +64,10 @@ def render(m, meta, trials=60, styles=("block", "kitty", "iterm2")):
                 for meth in ("L", "W"):
                     sp = "1.1" + alpha + "+" + meth + rng.choice(["", "z5", "m1", "c0", "z-3m1c9"])
                     _check(("kitty", term[0], W, H, sp), format(k, sp), W, H, rng, problems)
+                    # blend=False is what animations and the urwid widget pass (no format-specifier field for it)
+                    mix = rng.random() < 0.5
+                    out = k._renderer(k._render_image, None, method={"L": "lines", "W": "whole"}[meth], blend=False, mix=mix)
+                    _check(("kitty", term[0], W, H, meth, "blend=False", "mix=%s" % mix), out, W, H, rng, problems)
         if "iterm2" in styles:
             for term in ("iterm2", "konsole", "wezterm"):
                 ITerm2Image._TERM = term
